@@ -304,12 +304,28 @@ func (g *vcgen) monLock(mon *Monitor, obj string) {
 
 // havocOwned: fields of objects reachable through a protected pointer field belong to the monitor as well
 func (g *vcgen) havocOwned(mon *Monitor, obj string) {
-	if len(mon.Owns) == 0 {
+	if len(mon.Owns) == 0 && len(mon.OwnsMaps) == 0 {
 		return
 	}
 	p := g.eng.AllPkgs[mon.Pkg]
 	tn := p.Types.Scope().Lookup(mon.Type).(*types.TypeName)
 	st := tn.Type().Underlying().(*types.Struct)
+	for i := 0; i < st.NumFields(); i++ {
+		for _, mf := range mon.OwnsMaps {
+			mt, ok := st.Field(i).Type().Underlying().(*types.Map)
+			if st.Field(i).Name() != mf || !ok {
+				continue
+			}
+			ref := g.define("ownedmap", "Int", g.loadFieldIn(g.st, obj, tn.Type(), i))
+			has, val, ln := g.mapArrs(mt)
+			for _, arr := range []string{has, val, ln} {
+				fv := g.freshConst("ownm", arrayElemSort(g.varSort[arr]))
+				g.set(arr, fmt.Sprintf("(store %s %s %s)", g.get(g.st, arr), ref, fv))
+				g.setOld(arr, fmt.Sprintf("(store %s %s %s)", g.get(g.st, "old:"+arr), ref, fv))
+			}
+			g.assume(fmt.Sprintf("(>= (select %s %s) 0)", g.get(g.st, ln), ref))
+		}
+	}
 	for i := 0; i < st.NumFields(); i++ {
 		owned, ok := mon.Owns[st.Field(i).Name()]
 		if !ok {
@@ -457,6 +473,9 @@ func (g *vcgen) call2(v ssa.Value, c *ssa.CallCommon, args []string) []string {
 		return g.applyFunc(v, mc.Fn.(*ssa.Function), args, binds, c)
 	}
 	g.nonNil(fv, origin(c.Value))
+	if fc := g.eng.funcFieldContract(c.Value); fc != nil {
+		return g.applyContract(fc, nil, c.Signature(), args, nil, fc.FullName())
+	}
 	if fk := g.eng.libraryFuncField(c.Value); fk != "" {
 		g.noteAssumption("dynamic call through field " + fk + ": every value stored there is the result of a library call (checked), so the call is a library call without effect on module state")
 		return g.freshResults(c.Signature())
@@ -481,7 +500,16 @@ func (g *vcgen) havocAll() {
 	}
 	sort.Strings(names)
 	for _, n := range names {
-		if strings.HasPrefix(n, "G.") && !strings.HasPrefix(n, "G.cnt.") && !strings.HasPrefix(n, "G.first.") && !strings.HasPrefix(n, "G.last.") && n != "G.now" && n != "G.alloc" {
+		// monitor bookkeeping, defer flags and range iterators are local to this activation
+		if strings.HasPrefix(n, "G.held.") || strings.HasPrefix(n, "G.bcast.") || strings.HasPrefix(n, "G.wold.") || strings.HasPrefix(n, "G.armed.") || strings.HasPrefix(n, "G.visited.") || strings.HasPrefix(n, "old:") {
+			continue
+		}
+		if strings.HasPrefix(n, "G.fret.") {
+			// the result of the first occurrence during this call: only open while no occurrence has happened yet
+			ev := strings.TrimPrefix(n, "G.fret.")
+			cur := g.get(g.st, n)
+			fv := g.freshConst(n, g.varSort[n])
+			g.set(n, fmt.Sprintf("(ite (= %s %s) %s %s)", g.get(g.st, "G.cnt."+ev), g.get(g.old0, "G.cnt."+ev), fv, cur))
 			continue
 		}
 		g.havocNamed(n)
@@ -506,10 +534,30 @@ func (g *vcgen) havocNamed(n string) {
 	}
 }
 
-func (g *vcgen) havocEffects(eff *Effects) {
+func (g *vcgen) havocEffects(eff *Effects) { g.havocEffectsOf(eff, "callee") }
+
+func (g *vcgen) havocEffectsOf(eff *Effects, who string) {
 	if eff.All {
+		if g.frameActive() {
+			g.oblige("frame", "call of "+who, "false", who+" has no contract and may write anything (dynamic call inside); the caller's modifies clause cannot be checked")
+		}
 		g.havocAll()
 		return
+	}
+	if g.frameActive() {
+		var bad []string
+		for n := range eff.Vars {
+			if n == "G.alloc" || n == "G.now" || strings.HasPrefix(n, "G.first.") || strings.HasPrefix(n, "G.last.") || strings.HasPrefix(n, "G.ret.") {
+				continue
+			}
+			if !g.frameAllowsVar(n) {
+				bad = append(bad, n)
+			}
+		}
+		if len(bad) > 0 {
+			sort.Strings(bad)
+			g.oblige("frame", "call of "+who, "false", who+" has no frame contract and may write "+strings.Join(bad, ", "))
+		}
 	}
 	g.stateVar("G.alloc", "Int")
 	g.havocNamed("G.alloc")
@@ -611,9 +659,26 @@ func (g *vcgen) applyFunc(v ssa.Value, fn *ssa.Function, args []string, binds []
 		}
 		return g.freshResults(fn.Signature)
 	}
-	g.havocEffects(g.eng.FuncEffects(fn))
+	g.havocEffectsOf(g.eng.FuncEffects(fn), shortName(FullName(fn)))
 	g.noteUncontracted(FullName(fn))
 	return g.freshResults(fn.Signature)
+}
+
+// frameAllowsVar: may the function under verification write (anywhere in) state variable n?
+func (g *vcgen) frameAllowsVar(n string) bool {
+	for _, m := range g.fc.Modifies {
+		if m.Op == "sel" {
+			continue // a single location does not cover a whole array
+		}
+		names, err := g.eng.modifiesVars(m, g.fn, g.s)
+		if err != nil {
+			continue
+		}
+		if _, ok := names[n]; ok {
+			return true
+		}
+	}
+	return false
 }
 
 func (g *vcgen) noteAssumption(s string) {
@@ -753,6 +818,9 @@ func clauseLabel(c Clause, i int) string {
 func (g *vcgen) applyContract(fc *FuncContract, fn *ssa.Function, sig *types.Signature, args, binds []string, calleeName string) []string {
 	site := g.callSite(shortName(calleeName))
 	calleeShort := shortName(calleeName)
+	if !fc.Assumed {
+		g.u.UsedContracts[calleeName] = true
+	}
 	pre := g.st.clone()
 	envPre := g.contractEnv(fc, fn, sig, args, binds, nil, g.st, nil)
 	for i, r := range fc.Requires {
@@ -778,7 +846,7 @@ func (g *vcgen) applyContract(fc *FuncContract, fn *ssa.Function, sig *types.Sig
 			g.havocNamed("G.now")
 		}
 	} else if fn != nil && fn.Blocks != nil && g.eng.InModule(fn) {
-		g.havocEffects(g.eng.FuncEffects(fn))
+		g.havocEffectsOf(g.eng.FuncEffects(fn), calleeShort)
 	} else {
 		g.stateVar("G.alloc", "Int")
 		g.havocNamed("G.alloc")
@@ -824,6 +892,27 @@ func (g *vcgen) havocTarget(m *CExpr, env *cenv, fn *ssa.Function) {
 				g.stateVar("G.u."+a.Name, "Int")
 				g.havocNamed("G.u." + a.Name)
 			}
+			return
+		case "gm":
+			name := "G.m." + m.Args[1].Name
+			g.stateVar(name, "(Array Int Int)")
+			if len(m.Args) < 3 {
+				g.havocNamed(name)
+				g.frameCheckVar(name, m.String())
+				return
+			}
+			k, err := env.Eval(m.Args[2])
+			if err != nil {
+				g.unsupported("modifies %s: %v", m, err)
+				return
+			}
+			kt := k.term
+			if k.sort == "Iface" {
+				kt = fmt.Sprintf("(ival %s)", k.term)
+			}
+			fv := g.freshConst("gm", "Int")
+			g.set(name, fmt.Sprintf("(store %s %s %s)", g.get(g.st, name), kt, fv))
+			g.frameCheckVar(name, m.String())
 			return
 		case "mapof":
 			mv, err := env.Eval(m.Args[1])
@@ -1005,9 +1094,11 @@ func (g *vcgen) frameCheckMapTerm(m string, what string) {
 		return
 	}
 	allowed := []string{fmt.Sprintf("(> %s %s)", m, g.get(g.old0, "G.alloc"))}
+	fenv := *g.entryEnv
+	fenv.cur = g.oldView(g.st)
 	for _, mod := range g.fc.Modifies {
 		if mod.Op == "call" && mod.Args[0].Op == "id" && mod.Args[0].Name == "mapof" {
-			if b, err := g.entryEnv.Eval(mod.Args[1]); err == nil {
+			if b, err := fenv.Eval(mod.Args[1]); err == nil {
 				allowed = append(allowed, fmt.Sprintf("(= %s %s)", m, b.term))
 			}
 		}
@@ -1057,7 +1148,12 @@ func (g *vcgen) invoke(v ssa.Value, c *ssa.CallCommon, args []string) []string {
 		impls = g.eng.Implementers(itype.Underlying().(*types.Interface), iname)
 	}
 	if len(impls) == 0 {
-		g.noteAssumption("interface method without implementation in the module and without assumed contract: (" + iname + ")." + mname + " (no heap effect, arbitrary result)")
+		// an interface declared outside the module without assumed contract: the callee is unknown code
+		if g.frameActive() {
+			g.oblige("frame", "call of ("+iname+")."+mname, "false", "unknown implementation of an external interface may write anything")
+		}
+		g.havocAll()
+		g.noteAssumption("call of unknown implementation of (" + iname + ")." + mname + ": all state havocked")
 		return g.freshResults(c.Signature())
 	}
 	// closed world: the dynamic type is one of the module's implementers
@@ -1426,8 +1522,8 @@ func (g *vcgen) emitEvents(c *ssa.CallCommon, args []string, results []string, r
 			continue
 		}
 		if ret && len(results) > 0 {
-			rn := "G.ret." + ev.Name
-			g.stateVar(rn, g.s.sortOf(c.Signature().Results().At(0).Type()))
+			g.stateVar("G.ret."+ev.Name, g.s.sortOf(c.Signature().Results().At(0).Type()))
+			g.stateVar("G.fret."+ev.Name, g.s.sortOf(c.Signature().Results().At(0).Type()))
 		}
 		cond := "true"
 		if ev.When != nil {
@@ -1471,6 +1567,8 @@ func (g *vcgen) emitEvents(c *ssa.CallCommon, args []string, results []string, r
 		if ret && len(results) > 0 {
 			rn := "G.ret." + ev.Name
 			g.set(rn, fmt.Sprintf("(ite %s %s %s)", cond, results[0], g.get(g.st, rn)))
+			fn := "G.fret." + ev.Name
+			g.set(fn, fmt.Sprintf("(ite (and %s (= %s %s)) %s %s)", cond, cnt, g.get(g.old0, "G.cnt."+ev.Name), results[0], g.get(g.st, fn)))
 		}
 	}
 }
